@@ -237,8 +237,10 @@ impl<T: Value> Var<T> {
                 t.stabilisation_num.get().0
             );
             self.set_at.set(t.stabilisation_num.get());
-            debug_assert!(watch.is_stale());
-            if watch.is_necessary() && !watch.is_in_recompute_heap() {
+            // a var created with var_current_scope whose scope has been invalidated keeps its
+            // value, but its (invalid) watch node must never be scheduled again
+            debug_assert!(!watch.is_valid() || watch.is_stale());
+            if watch.is_valid() && watch.is_necessary() && !watch.is_in_recompute_heap() {
                 tracing::info!(
                     "inserting var watch into recompute heap at height {:?}",
                     watch.height()
